@@ -278,7 +278,7 @@ pub fn gen_case_modinfo(seed: u64, k: u64) -> Case {
   // off): those are outside the registry model and are decided by the two real builds alone
   let with_assets = k % 3 == 2;
   let cfg = JGenCfg { modinfo: 100, partial_info: 0, stale_info: 0, dirty_cache: false, manifest_faults: 0, faults: 0, locker: 0, weird_exports: 3, stale_meta: 5,
-    asset_imports: if with_assets { 40 } else { 0 }, ..Default::default() };
+    asset_imports: if with_assets { 40 } else { 0 }, json_attr: if with_assets { 12 } else { 0 }, ..Default::default() };
   let mut c = gen_jcase(&mut rng, &cfg);
   if with_assets {
     c.unstable_text = rng.chance(80);
